@@ -14,9 +14,7 @@ import (
 	"github.com/plgd-dev/go-coap/v3/mux"
 	"github.com/plgd-dev/go-coap/v3/net/responsewriter"
 	"github.com/plgd-dev/go-coap/v3/options"
-	"github.com/plgd-dev/go-coap/v3/tcp"
 	tcpClient "github.com/plgd-dev/go-coap/v3/tcp/client"
-	"github.com/plgd-dev/go-coap/v3/udp"
 	udpClient "github.com/plgd-dev/go-coap/v3/udp/client"
 	"pgregory.net/rapid"
 
@@ -26,6 +24,7 @@ import (
 	"verif/memnet"
 	"verif/peer"
 	"verif/refcodec"
+	"verif/roles"
 	"verif/wire"
 )
 
@@ -50,6 +49,8 @@ type e2eScenario struct {
 	// option at all (the endpoint's built-in handler answers requests with 4.04); "mux" an empty
 	// router (its default handler answers 4.04)
 	Handler string `json:"handler,omitempty"`
+	// Role: "" a client connection; "server" the connection a tcp / dtls server creates for an accepted peer
+	Role string `json:"role,omitempty"`
 }
 
 var testingT *testing.T
@@ -65,6 +66,7 @@ func execE2E(r *evid.Run) func(sc e2eScenario) *evid.Failure {
 			var tk endpoints.Ticker
 			var w wire.Wire
 			var closeConn func()
+			stopRole := func() {}
 			handle := func(setResponse func(code codes.Code) error, rq *pool.Message) {
 				b, _ := rq.ReadBody()
 				if len(b) != 3 || b[0] != 0x20 {
@@ -77,7 +79,7 @@ func execE2E(r *evid.Run) func(sc e2eScenario) *evid.Failure {
 			}
 			if sc.Transport == "udp" {
 				link := memnet.NewPacketLink(memnet.LinkCfg{LatencyMs: 1})
-				uopts := []udp.Option{
+				uopts := []any{
 					options.WithMessagePool(pool.New(8, 2048)), options.WithPeriodicRunner(tk.Runner()),
 					options.WithBlockwise(false, 6, time.Second),
 				}
@@ -92,12 +94,16 @@ func execE2E(r *evid.Run) func(sc e2eScenario) *evid.Failure {
 						}, rq)
 					})))
 				}
-				cc := endpoints.UDP(link.A, uopts...)
+				cc, stop, err := roles.Packet(sc.Role, link, bubble.Wait, uopts...)
+				if err != nil {
+					panic(err)
+				}
+				stopRole = stop
 				w = wire.UDP(link)
 				closeConn = func() { _ = cc.Close() }
 			} else {
 				link := memnet.NewStreamLink(memnet.StreamCfg{})
-				topts := []tcp.Option{
+				topts := []any{
 					options.WithMessagePool(pool.New(8, 2048)), options.WithPeriodicRunner(tk.Runner()),
 					options.WithBlockwise(false, 6, time.Second), options.WithCloseSocket(),
 				}
@@ -112,7 +118,8 @@ func execE2E(r *evid.Run) func(sc e2eScenario) *evid.Failure {
 						}, rq)
 					})))
 				}
-				cc, err := endpoints.TCP(link.A, topts...)
+				cc, stop, err := roles.Stream(sc.Role, link, bubble.Wait, topts...)
+				stopRole = stop
 				if err != nil {
 					panic(err)
 				}
@@ -222,6 +229,7 @@ func execE2E(r *evid.Run) func(sc e2eScenario) *evid.Failure {
 				}
 			}
 			closeConn()
+			stopRole()
 			bubble.Wait()
 		})
 		if res.Panic != "" {
@@ -234,11 +242,14 @@ func execE2E(r *evid.Run) func(sc e2eScenario) *evid.Failure {
 			for _, q := range sc.Reqs {
 				key := ""
 				if q.ValueLen == 1 && q.Value != 0 {
-					key = fmt.Sprint(sc.Transport, q.Con, q.Value, q.Code, sc.Handler)
+					key = fmt.Sprint(sc.Transport, q.Con, q.Value, q.Code, sc.Handler, sc.Role)
 				}
 				cls := []string{"e2e/" + sc.Transport}
 				if sc.Handler != "" {
 					cls = append(cls, "e2e/built-in-handler-"+sc.Handler)
+				}
+				if sc.Role == "server" {
+					cls = append(cls, "e2e/connection-created-by-a-server")
 				}
 				if len(q.Extra) > 0 && q.ValueLen >= 0 {
 					cls = append(cls, "e2e/option-behind-no-response")
@@ -253,6 +264,9 @@ func execE2E(r *evid.Run) func(sc e2eScenario) *evid.Failure {
 func genE2E(t *rapid.T) e2eScenario {
 	sc := e2eScenario{Transport: rapid.SampledFrom([]string{"udp", "tcp"}).Draw(t, "transport")}
 	sc.Handler = rapid.SampledFrom([]string{"", "", "", "default", "mux"}).Draw(t, "handler")
+	if rapid.IntRange(0, 2).Draw(t, "role") == 0 {
+		sc.Role = "server"
+	}
 	n := rapid.IntRange(1, 6).Draw(t, "n")
 	for i := 0; i < n; i++ {
 		q := e2eReq{
